@@ -185,4 +185,17 @@ theorem run_hdr_latest (dec : Dec P) (s : Option String) (rs : List (Req × Beha
             simp only [issued, sessionAfter, hs, hv, if_false, getLast?_cons_or]
             cases (issued (List.take k xs)).getLast? <;> simp
 
+theorem runEvents_eq (dec : Dec P) (s : Option String) (evs : List Ev) :
+    (runEvents dec s evs).outs = (run dec s (beforeClose evs)).outs ∧
+    (runEvents dec s evs).hdrs = (run dec s (beforeClose evs)).hdrs ∧
+    ((runEvents dec s evs).closed = true ↔ Ev.close ∈ evs) := by
+  induction evs generalizing s with
+  | nil => simp [runEvents, beforeClose, run]
+  | cons e es ih =>
+    cases e with
+    | close => simp [runEvents, beforeClose, run]
+    | post r b =>
+      have := ih (sessionAfter s b)
+      simp [runEvents, beforeClose, run, this.1, this.2.1, this.2.2]
+
 end Verif.Model.HttpDecide
